@@ -17,6 +17,10 @@ func NewSerial() Workers {
 }
 
 type SerialJob struct {
+	// l serializes the tasks and guards [err]: Go may be called from several
+	// goroutines (ex. the batch verifier's worker and the caller adding
+	// unbatched signatures)
+	l    sync.Mutex
 	once sync.Once
 	err  error
 	// done is closed by [Done], once no more tasks will be added
@@ -30,6 +34,9 @@ func (*SerialWorkers) NewJob(_ int) (Job, error) {
 func (*SerialWorkers) Stop() {}
 
 func (j *SerialJob) Go(f func() error) {
+	j.l.Lock()
+	defer j.l.Unlock()
+
 	if j.err != nil {
 		return
 	}
@@ -51,6 +58,9 @@ func (j *SerialJob) Done(f func()) {
 // goroutine until then) and reports the first error of the job's tasks.
 func (j *SerialJob) Wait() error {
 	<-j.done
+
+	j.l.Lock()
+	defer j.l.Unlock()
 	return j.err
 }
 
